@@ -42,5 +42,11 @@ CLAIMED = {
         design_ref="§4 C22, §3.11",
         note="the real file system is driven, not modelled beyond component walking and link following; PackageLoader only without reject_symlinks (it has no such option)",
     ),
+    "C21": dict(
+        technique="TLA+ pushdown automaton of the block parser plus a reference tag audit (BlockParser.tla) model-checked with TLC (safety + liveness); every enumerated token sequence run through the real strict parser and analyze_tags_from_string",
+        text="TLC checks DepthBounded, NoFalseAlarmWhenStrictParses, UnknownNeverParses, UnclosedNeverParses, Progress and (under WF) Terminates on every token sequence of length<=5 (thorough 6) over five alphabets of block/inner/end/unknown/malformed tags; for each sequence the real audit must not raise, must report nothing when the engine's strict parse succeeds (outside the two excluded corners), and must report every unknown tag and every block kind with more openers than end tags; the automaton's accept/reject/nesting verdict is compared with the real strict parser (0 disagreements on the unchanged tree)",
+        design_ref="§4 C21, §3.4",
+        note="break/continue outside loops and regions thrown away by the if/unless tags' own lax recovery are outside the no-false-alarm clause; must-report sets are the conservative ones; quick replays all accepted sequences and a 9k sample of rejected ones per alphabet",
+    ),
 }
 NOT_APPLICABLE = {}
